@@ -17,6 +17,11 @@ ASSUMPTIONS = [
     "process zone changed only through os.environ['TZ'] + time.tzset() and restored",
     "tzinfos callables are pure functions of (name, offset)",
     "UnknownTimezoneWarning is observed through warnings.catch_warnings(record=True)",
+    "default= is a datetime.datetime, naive (10 values) or AWARE (4 values, ~10 % of the calls): the wall-time clauses are checked "
+    "on the default's wall time; where no zone is applied the result keeps the default's tzinfo (the model's .naive / .naiveWarn mean "
+    "'default.replace(...) as it is'), which for ignoretz=True and for an unknown abbreviation contradicts the property text: known "
+    "finding D-C15-aware-default-kept.  default=datetime.date(...) is outside the documented type ('the default datetime object'): "
+    "observed each run (TypeError when the text names a time field, a date object otherwise), reported in the histograms, not judged",
     "a tzinfos value that is a MALFORMED TZ string is not 'a TZ string' in the sense of this property: such calls are generated, "
     "must raise exactly what the Lean model of tz.tzstr raises (ValueError), and are counted (tzinfos_malformed_tzstring_calls); "
     "that the exception is not a ParserError is C14's known finding D-C14-tzinfos-bad-tzstring",
@@ -64,6 +69,7 @@ def partial(rng):
 
 def expected_naive(default, fields, weekday):
     """the property's statement of the fill-in; None = construction impossible (ParserError / OverflowError expected)"""
+    default = default.replace(tzinfo=None)          # the wall-time part; what happens to an aware default's zone is clause (c)/(d)
     repl = dict(fields)
     if 'day' not in repl:
         y = repl.get('year', default.year); m = repl.get('month', default.month)
@@ -119,7 +125,7 @@ def tzcascade_requests(ctx, items):
         elif r.startswith("ok tzi "):
             data, nm = r[7:].split(" ")
             if data == "n":
-                out[i] = "ok naive"
+                out[i] = "ok none"               # tzinfos said None: replace(tzinfo=None), naive whatever the default is
                 continue
             if data[0] == "o":
                 k = int(data[1:]); z = L.tzobjs()[k]; lab = "obj %d" % k
@@ -159,7 +165,7 @@ def gen_calls(ctx, rng, n):
             if zt and not zt.startswith(' ') and text[-1:].isalpha():
                 zt = ' ' + zt
         c = G.options(rng, text + zt, allow_custom=False)
-        c.default = rng.choice(G.DEFAULTS)
+        c.default = G.pick_default(rng, 0.1)
         c.fuzzy = c.fwt = False
         c.dayfirst = c.yearfirst = None
         c.info = None
@@ -278,12 +284,27 @@ def oracle(ctx):
                                               zp[1] if not c.ignoretz else None, exp) for c, zp, exp, _, _ in items])
             for (c, zp, exp, ans, raw), ez in zip(items, exp_z):
                 got = "ok " + ans.split(" | ")[1]
+                aware_dflt = c.default.tzinfo is not None
+                if aware_dflt:                      # where the cascade applies no zone the default's tzinfo stays
+                    ez = "ok dflt" if ez == "ok naive" else (ez + " dflt" if ez.startswith("ok warn ") else ez)
+                if ez == "ok none":
+                    ez = "ok naive"
                 ctx.evaluations += 1
                 ctx.count("zone_" + ez.split(" ")[1] if ez.startswith("ok ") else "zone_err")
                 if ez.startswith("err "):
                     continue        # tzoffset overflow etc.: the call raised before; not reached here
                 if got != ez:
                     ctx.violation("zone resolution order: expected %s" % ez, c.describe(), {"impl": ans, "meaning": zp})
+                elif aware_dflt and (got.startswith("ok warn ") or (c.ignoretz and got == "ok dflt")):
+                    # the property: "an unresolvable abbreviation yields a NAIVE result with a warning", "ignoretz returns the
+                    # same wall time WITHOUT a zone" — with an aware default the result keeps the default's zone instead
+                    case = c.describe()
+                    case["known_class"] = "D-C15-aware-default-kept" if raw.tzinfo is c.default.tzinfo else None
+                    ctx.count("known_class_D-C15-aware-default-kept_hits")
+                    known_counts["ad"] = known_counts.get("ad", 0) + 1
+                    if known_counts["ad"] <= 25 or case["known_class"] is None:
+                        ctx.violation("ignoretz / an unknown abbreviation must give a naive datetime", case,
+                                      {"impl": got, "model": ez, "meaning": zp})
                 # documented consequences, stated directly
                 if raw.tzinfo is not None and zp[1] is not None and c.tz.kind == "none" and not c.ignoretz:
                     name_is_local = zp[0] is not None and zp[0] in __import__("time").tzname
@@ -312,7 +333,22 @@ def oracle(ctx):
                     ctx.evaluations += 1
                     ctx.count("ignoretz_pairs")
                     if ans.startswith("ok "):
-                        if not (a2.startswith("ok ") and r2.tzinfo is None and r2 == raw.replace(tzinfo=None, fold=0)):
+                        if c.default.tzinfo is not None:
+                            # aware default: the wall time must be the same; the zone clause fails in exactly one way
+                            # (the default's tzinfo is kept: D-C15-aware-default-kept, model = implementation)
+                            m2 = L.model_answers(ctx, [c2])[0]
+                            if not (a2.startswith("ok ") and r2.replace(tzinfo=None) == raw.replace(tzinfo=None, fold=0)) or a2 != m2:
+                                ctx.violation("ignoretz must return the same wall time without a zone", c.describe(),
+                                              {"impl": ans, "ignoretz": a2, "model_ignoretz": m2})
+                            elif r2.tzinfo is not None:
+                                case = c2.describe()
+                                case["known_class"] = "D-C15-aware-default-kept" if r2.tzinfo is c.default.tzinfo else None
+                                ctx.count("known_class_D-C15-aware-default-kept_hits")
+                                known_counts["ad"] = known_counts.get("ad", 0) + 1
+                                if known_counts["ad"] <= 25 or case["known_class"] is None:
+                                    ctx.violation("ignoretz / an unknown abbreviation must give a naive datetime", case,
+                                                  {"impl": "ok " + a2.split(" | ")[1], "model": "ok " + m2.split(" | ")[1]})
+                        elif not (a2.startswith("ok ") and r2.tzinfo is None and r2 == raw.replace(tzinfo=None, fold=0)):
                             ctx.violation("ignoretz must return the same wall time without a zone", c.describe(), {"impl": ans, "ignoretz": a2})
                     elif ans == "err ParserError" and a2 != ans:
                         ctx.violation("ignoretz changed a failing parse", c.describe(), {"impl": ans, "ignoretz": a2})
@@ -392,6 +428,14 @@ def oracle(ctx):
             ctx.case(("unknown", nm))
             if ans != "ok 2003 9 25 10 30 0 0 | warn %s | -" % L.cps(nm):
                 ctx.violation("unknown abbreviation must give a naive datetime and UnknownTimezoneWarning", {"text": "10:30 " + nm}, {"impl": ans})
+        # default=date(...): outside the documented type; observed, not judged
+        for txt in ["10:00", "Sep 5", "2003-09-25", "Monday"]:
+            try:
+                r = P.parse(txt, default=datetime.date(2003, 9, 25))
+                got = type(r).__name__
+            except Exception as e:
+                got = L.exc_kind(e)
+            ctx.hist["date_default_%s" % txt.replace(" ", "_")] = got
         # the D-C15 witness, re-confirmed on every run
         w = L.Call("10:30 am pm")
         a1, _, _ = L.run_impl(w)
@@ -416,6 +460,8 @@ KNOWN = {
     "D-C15-second-ampm-marker": lambda v: v["what"].startswith("text accepted without fuzzy")
     and v["case"].get("known_class") == "D-C15-second-ampm-marker"
     and v["detail"].get("strict") == v["detail"].get("model_strict") and v["detail"].get("fuzzy") == v["detail"].get("model_fuzzy"),
+    "D-C15-aware-default-kept": lambda v: v["case"].get("known_class") == "D-C15-aware-default-kept"
+    and v["detail"].get("impl") is not None and v["detail"].get("impl") == v["detail"].get("model"),
     "D-C15-local-zone-named-utc": lambda v: v["case"].get("known_class") == "D-C15-local-zone-named-utc"
     and v["detail"].get("impl") is not None and v["detail"].get("impl") == v["detail"].get("model"),
 }
